@@ -1327,6 +1327,13 @@ class RecordSerializer(TypeSerializer[T, np.void]):
         for i, (_, serializer) in enumerate(self._field_serializers):
             serializer.write(stream, values[i])
 
+    def _write_numpy(self, stream: CodedOutputStream, *values: Any) -> None:
+        # the fields of an element of a structured array are in their numpy
+        # representation: optionals are (has_value, value) records, enums are
+        # integers, nested records are np.void
+        for i, (_, serializer) in enumerate(self._field_serializers):
+            serializer.write_numpy(stream, values[i])
+
     def _read(self, stream: CodedInputStream) -> tuple[Any, ...]:
         return tuple(
             serializer.read(stream) for _, serializer in self._field_serializers
